@@ -108,16 +108,65 @@ theorem any_members (s : Str) (ms : List String) :
     · have : ¬ (String.ofList s = m) := fun h' => h (by rw [← h']; simp)
       simp [h, this]
 
+/-! `==` between values of different kinds (the catch-all equation of `pyEqV`, spelled out for text and `None`) -/
+theorem pyEqV_none_str (b : Str) : pyEqV .none (.str b) = false := rfl
+theorem pyEqV_int_str (a : Int) (b : Str) : pyEqV (.int a) (.str b) = false := rfl
+theorem pyEqV_bool_str (a : Bool) (b : Str) : pyEqV (.bool a) (.str b) = false := rfl
+theorem pyEqV_tokens_str (a : List Str) (b : Str) : pyEqV (.tokens a) (.str b) = false := rfl
+theorem pyEqV_ancestor_str (a : Nat) (b : Str) : pyEqV (.ancestor a) (.str b) = false := rfl
+theorem pyEqV_opaque_str (a : String) (b : Str) : pyEqV (.opaque a) (.str b) = false := rfl
+theorem pyEqV_str_none (a : Str) : pyEqV (.str a) .none = false := rfl
+theorem pyEqV_int_none (a : Int) : pyEqV (.int a) .none = false := rfl
+theorem pyEqV_bool_none (a : Bool) : pyEqV (.bool a) .none = false := rfl
+theorem pyEqV_tokens_none (a : List Str) : pyEqV (.tokens a) .none = false := rfl
+theorem pyEqV_ancestor_none (a : Nat) : pyEqV (.ancestor a) .none = false := rfl
+theorem pyEqV_opaque_none (a : String) : pyEqV (.opaque a) .none = false := rfl
+
+/-- `v == ''` for a value that is not the empty text. -/
+theorem pyEqV_nil_of_ne (v : PyV) (h : v ≠ .str []) : pyEqV v (.str []) = false := by
+  cases v <;> simp_all [pyEqV]
+
+theorem isNoneOrEmpty_false (v : PyV) (h : isNoneOrEmpty v = false) : v ≠ .none ∧ v ≠ .str [] := by
+  constructor <;> (intro hv; subst hv; simp [isNoneOrEmpty] at h)
+
+/-- `int(v)` fails with `ValueError` (text) or `TypeError` (an object) only. -/
+theorem pyInt_error (parseInt : Str → Except PyErr Int) (hpi : ValueErrorOnly parseInt) (v : PyV) (e : PyErr)
+    (h : pyInt parseInt v = .error e) : e = .valueError ∨ e = .typeError := by
+  cases v <;> simp [pyInt] at h
+  case str s => exact Or.inl (hpi s e h)
+  all_goals exact Or.inr h.symm
+
+theorem isNoneOrEmpty_true (v : PyV) (h : isNoneOrEmpty v = true) : v = .none ∨ v = .str [] := by
+  cases v <;> simp [isNoneOrEmpty] at h ⊢
+  case str s => cases s <;> simp_all
+
+theorem pyIn_py_tuple (a : PyV) (vs : List PyV) : pyIn (.py a) (.tuple vs) = .ok (vs.any (fun e => pyEqV a e)) := rfl
+
+theorem pyIn_ofMembers (t : Str) (ms : List String) :
+    pyIn (.py (.str t)) (ofMembers ms) = .ok (ms.contains (String.ofList t)) := by
+  rw [ofMembers, pyIn_py_tuple, any_members]
+
+/-- The hand model of convertPossibleValues on a value that is not `None`. -/
+theorem possible_ne_none (v : PyV) (hv : v ≠ .none) (ms : List String) (inv : Inv) (emp : Emp) :
+    Conv.convertPossibleValues v ms inv emp
+      = if lower (tostr v) = [] then handleEmpty inv emp
+        else if ms.contains (String.ofList (lower (tostr v))) then .ok (.str (lower (tostr v))) else handleInvalid inv := by
+  cases v <;> first | exact absurd rfl hv | rfl
+
 /-- Unfold the interpreter on the body of a dumped function of conversions.py (after `simp only [link_k, run, f_ast]`;
 `run` itself is not in the set, so that the call of `_handleInvalid` is rewritten by `handleInvalid_run`). -/
 macro "py_eval" : tactic => `(tactic| simp [
-  bindArgs, execL, execS, execH, eval, evalList, toTuple, pyCompare, compareB, bnot, pyIn, pyEq, pyIs, pyOrd, numOf, isText,
-  Val.unique, pyEqV, Lit.toPy, Val.truthy, truthy, builtin, catches, errIsA, excOf_TypeError, excOf_ValueError, callMethod, hasLower,
+  bindArgs, execL, execS, execH, eval, evalList, toTuple, pyCompare, compareB, bnot, pyIn_py_tuple, pyIn_ofMembers, pyEq, pyIs, pyOrd, numOf, isText,
+  Val.unique, pyEqV.eq_1, pyEqV.eq_2, pyEqV.eq_3, pyEqV.eq_4, pyEqV.eq_5, pyEqV.eq_6, pyEqV.eq_7, pyEqV.eq_8, pyEqV.eq_9,
+  pyEqV_none_str, pyEqV_int_str, pyEqV_bool_str, pyEqV_tokens_str, pyEqV_ancestor_str, pyEqV_opaque_str, pyEqV_str_none,
+  pyEqV_int_none, pyEqV_bool_none, pyEqV_tokens_none, pyEqV_ancestor_none, pyEqV_opaque_none, Lit.toPy, Val.truthy, truthy, builtin, catches, errIsA, excOf_TypeError, excOf_ValueError, callMethod, hasLower,
   List.lookup, cxAt_builtin, cxAt_handleInvalid_5, cxAt_handleInvalid_6, cxAt_handleInvalid_7, handleInvalid_run])
 /-- `py_eval` with further facts (case hypotheses, the hand model's definitions). -/
 macro "py_eval" "[" ts:Lean.Parser.Tactic.simpLemma,* "]" : tactic => `(tactic| simp [$ts,*,
-  bindArgs, execL, execS, execH, eval, evalList, toTuple, pyCompare, compareB, bnot, pyIn, pyEq, pyIs, pyOrd, numOf, isText,
-  Val.unique, pyEqV, Lit.toPy, Val.truthy, truthy, builtin, catches, errIsA, excOf_TypeError, excOf_ValueError, callMethod, hasLower,
+  bindArgs, execL, execS, execH, eval, evalList, toTuple, pyCompare, compareB, bnot, pyIn_py_tuple, pyIn_ofMembers, pyEq, pyIs, pyOrd, numOf, isText,
+  Val.unique, pyEqV.eq_1, pyEqV.eq_2, pyEqV.eq_3, pyEqV.eq_4, pyEqV.eq_5, pyEqV.eq_6, pyEqV.eq_7, pyEqV.eq_8, pyEqV.eq_9,
+  pyEqV_none_str, pyEqV_int_str, pyEqV_bool_str, pyEqV_tokens_str, pyEqV_ancestor_str, pyEqV_opaque_str, pyEqV_str_none,
+  pyEqV_int_none, pyEqV_bool_none, pyEqV_tokens_none, pyEqV_ancestor_none, pyEqV_opaque_none, Lit.toPy, Val.truthy, truthy, builtin, catches, errIsA, excOf_TypeError, excOf_ValueError, callMethod, hasLower,
   List.lookup, cxAt_builtin, cxAt_handleInvalid_5, cxAt_handleInvalid_6, cxAt_handleInvalid_7, handleInvalid_run])
 
 end AHP.PyAst
